@@ -262,7 +262,7 @@ pub fn run(cfg: &RunCfg) -> CheckReport {
         "every ordered pair of texts of each listed family (all strings of up to L letters; deduplicated) x 3 algorithms x {[u8], str} x every op of the line diff x inline deadline mode {none, default 500 ms deadline under a never-expiring virtual clock, virtual clock expiring at probe k for every k the op's inline diff makes}; one case = one text pair. Oracle: same tags/indices as the plain expansion, segments concatenate to the line, emphasis only inside Delete/Insert of a Replace op and never over CR/LF, missing_newline agrees. Non-trivial: some change carries an emphasised segment. Pairs are distinct within a family.",
     );
     rep.assume("H1 virtual clock answers the inline diff's deadline probes");
-    rep.assume("consumption modes and iter_strings_lossy: the inline expansion of the first two and the last op; quick tier on text pairs of up to 5 bytes in total, thorough tier on every pair");
+    rep.assume("consumption modes and iter_strings_lossy: the inline expansion of the first two and the last op; quick tier on text pairs of up to 5 bytes in total, thorough tier 3 bytes more");
     rep.extra.insert("similar_unicode_feature".into(), json!(unicode));
     if let Ok(side) = std::env::var("VERIF_C16_SIDE") {
         if let Some(v) = std::fs::read_to_string(&side)
